@@ -3,11 +3,15 @@
 (* filtering (property C16).                                                    *)
 (*  - DiffractionPatterns.interpolate preserves the total intensity of each     *)
 (*    pattern (a pattern without intensity stays without intensity).            *)
-(*  - Images.interpolate(method="fft"): the target grid for a requested         *)
-(*    sampling d' on n points of sampling d is ceil(n d / d') points (exact     *)
-(*    rationals); when that is the grid the image already has (in particular    *)
-(*    when its own sampling is requested) the image is returned unchanged; the  *)
-(*    mean of each image is always preserved.                                   *)
+(*  - Images.interpolate(method="fft"): a requested number of grid points is    *)
+(*    delivered; when the grid of the result is the grid the image already has  *)
+(*    the image is returned unchanged; the mean of each image is always         *)
+(*    preserved.  Which grid a requested *sampling* maps to is not part of the  *)
+(*    property: abTEM takes ceil(n d / d') in floating point, its own test      *)
+(*    suite pins that expression (test_interpolate_images), and for the image's *)
+(*    own sampling the quotient can be one ulp above n, giving n + 1 points - a *)
+(*    different grid, on which only the mean is promised.  TargetGpts (exact    *)
+(*    rationals) is kept for the model's use, not for the verdict.              *)
 (*  - gaussian_source_size(sigma) then integration over the detector equals     *)
 (*    integration then gaussian_filter(sigma): the Gaussian acts on the two     *)
 (*    scan axes (physical sigma_j along scan axis j), integration on the        *)
@@ -25,11 +29,9 @@ DiffractionFails(ev) ==
   \cup (IF ev.lazy_ppb <= Tol THEN {} ELSE {"lazy_and_eager_differ"})
 ImageFails(ev) ==
   IF ev.raised THEN {"interpolate_raises_for_a_documented_target"}
-  ELSE LET want == IF ev.by = "gpts" THEN ev.target
-                   ELSE <<TargetGpts(ev.n[1], ev.d[1], ev.dnew[1]), TargetGpts(ev.n[2], ev.d[2], ev.dnew[2])>>
-           same == want = ev.n
-       IN (IF ev.by = "gpts" => ev.gpts = want THEN {} ELSE {"target_grid_is_not_the_requested_gpts"})
-     \cup (IF same => (ev.gpts = ev.n /\ ev.unchanged_ppb <= Tol) THEN {} ELSE {"same_grid_does_not_return_the_input"})
+  ELSE LET same == ev.gpts = ev.n
+       IN (IF ev.by = "gpts" => ev.gpts = ev.target THEN {} ELSE {"target_grid_is_not_the_requested_gpts"})
+     \cup (IF same => ev.unchanged_ppb <= Tol THEN {} ELSE {"same_grid_does_not_return_the_input"})
      \cup (IF AllLe(ev.mean_ppb, Tol) THEN {} ELSE {"image_mean_not_preserved"})
      \cup (IF ev.lazy_ppb <= Tol THEN {} ELSE {"lazy_and_eager_differ"})
 SourceFails(ev) ==
